@@ -474,9 +474,9 @@ std::string
 gen_c05()
 {
 	std::ostringstream t;
-	int mode = *pbt::welem<int>({{3, 0}, {2, 1}, {1, 2}});
-	t << "cfg " << *pbt::range<int>(1, 1000000) << " " << mode << " " << *gen::element(10, 30, 60) << " " << *pbt::range<int>(1, 3)
-	  << " 400 0\n";
+	int mode = *pbt::welem<int>({{3, 0}, {2, 1}, {1, 2}, {2, 3}});
+	t << "cfg " << *pbt::range<int>(1, 1000000) << " " << mode << " " << (mode == 3 ? *gen::element(5, 20, 50) : *gen::element(10, 30, 60)) << " " << *pbt::range<int>(1, 3)
+	  << " " << (mode == 3 ? *gen::element(60, 150, 400) : 400) << " 0\n";
 	// usually start small so that overflow is reachable
 	if (*gen::weightedElement<int>({{3, 1}, {1, 0}}))
 		t << "rbuf 0 " << *pbt::range<int>(1, 4) << "\n";
